@@ -581,7 +581,7 @@ func runWirePart(c *Ctx, work string, sp *WireSpec) (Coverage, int, error) {
 	if sp.Op == "stream" {
 		kept := eventLines[:0]
 		for _, ln := range eventLines {
-			if bytes.HasPrefix(ln, []byte(`{"ev":"sbegin"`)) || bytes.HasPrefix(ln, []byte(`{"ev":"sread"`)) || bytes.HasPrefix(ln, []byte(`{"ev":"sret"`)) {
+			if bytes.HasPrefix(ln, []byte(`{"ev":"sbegin"`)) || bytes.HasPrefix(ln, []byte(`{"ev":"sread"`)) || bytes.HasPrefix(ln, []byte(`{"ev":"sret"`)) || bytes.HasPrefix(ln, []byte(`{"ev":"sabort"`)) {
 				streamLines = append(streamLines, ln)
 			} else {
 				kept = append(kept, ln)
